@@ -112,6 +112,8 @@ func ProfileFor(focus, arm string) Profile {
 		p.Garbage, p.GarbageReply, p.OddQueries = 0.5, 0.3, 0.1
 		p.DupReply = 0.15
 		p.LongNames = 0.1
+		p.RichRules = true
+		p.NUpstreams = [2]int{1, 3}
 		p.NConns, p.OpsPerConn = [2]int{4, 10}, [2]int{1, 6}
 		p.Seg = true
 		p.SpanUs = 3_000_000
@@ -140,6 +142,9 @@ func ProfileFor(focus, arm string) Profile {
 			p.FailActs, p.MixedActs, p.GarbageReply = 0.35, 0.15, 0.1
 			p.DupReply = 0.05
 			p.UpFaultNet = true
+		} else {
+			// every way of cutting the byte streams, on both sides of the proxy
+			p.Seg = true
 		}
 		p.Rcodes = true
 	case "C04", "C20":
@@ -153,6 +158,10 @@ func ProfileFor(focus, arm string) Profile {
 		p.RepeatToken = 0.3
 		p.Yields, p.GC, p.Seg = true, true, true
 		p.Shapes = []string{"plain", "mixed", "binary"}
+		if focus == "C04" {
+			// answers the proxy makes itself (NOTIMP) between the forwarded ones
+			p.OddQueries = 0.08
+		}
 		if arm == "late" {
 			p.LateReply = 0.15
 			p.SpanUs = 9_000_000
@@ -484,9 +493,12 @@ func fillName(r *rng, ls [][]byte) [][]byte {
 		return ls
 	}
 	binary := r.p(0.5)
+	// a third of the long names are made of many short labels (up to 127 of
+	// them fit) instead of few long ones
+	maxLabel := []int{63, 63, 1, 2}[r.intn(4)]
 	var fill [][]byte
 	for rem >= 2 {
-		n := min(63, rem-1)
+		n := min(maxLabel, rem-1)
 		if rem-(n+1) == 1 {
 			n--
 		}
@@ -938,6 +950,9 @@ func genRules(r *rng, pr *Profile, rp *plan.RouterPlan) {
 			if r.p(0.3) {
 				lines = append(lines, "# a comment", "", "   ")
 			}
+			if r.p(0.2) {
+				ds.NoFinalNewline = append(ds.NoFinalNewline, f)
+			}
 			ds.Files = append(ds.Files, lines)
 		}
 		if r.p(0.07) {
@@ -1133,9 +1148,9 @@ func specialize(r *rng, p *plan.Plan, focus, arm string) {
 				rp.MetricsAddr = "127.0.0.1:9153"
 			}
 		case "startfault":
-			kinds := []string{"addr_in_use", "bad_pem", "bad_proto", "bad_scheme", "missing_file", "bad_ca", "no_cert"}
+			kinds := []string{"addr_in_use", "bad_pem", "bad_proto", "bad_scheme", "missing_file", "bad_ca", "no_cert", "dup_tag", "dup_tag_quic", "unknown_upstream_tag"}
 			if focus == "C10" {
-				kinds = []string{"dup_tag", "dup_set_tag", "unknown_upstream_tag", "unknown_domain_tag", "missing_tag", "missing_addr"}
+				kinds = []string{"dup_tag", "dup_set_tag", "unknown_upstream_tag", "unknown_domain_tag", "missing_tag", "missing_addr", "dup_tag_quic"}
 			}
 			rp.StartFault = &plan.StartFault{Kind: kinds[r.intn(len(kinds))], Pos: r.intn(8)}
 			if r.p(0.5) {
@@ -1272,6 +1287,14 @@ func genCacheOps(r *rng, p *plan.Plan, focus, arm string) {
 		srcs6 = append(srcs6, "2001:db8:a::", "2001:db8:a:ff:ffff:ffff:ffff:ffff", "2001:db8:a:100::", "2001:db8:b::")
 	}
 	nk := r.rng(1, 4)
+	// many entries enter their last quarter together while the upstream is slow:
+	// a refresh per entry is in flight at the same time, and every hit still
+	// has to be answered at once
+	many := focus == "C19" && arm != "prefetch" && r.p(0.12)
+	manyLife := int64([]int{8, 20, 60}[r.intn(3)])
+	if many {
+		nk = r.rng(18, 30)
+	}
 	var last int64
 	for k := 0; k < nk; k++ {
 		tok := fmt.Sprintf("t%d", k)
@@ -1376,15 +1399,26 @@ func genCacheOps(r *rng, p *plan.Plan, focus, arm string) {
 				tcRefresh = true
 			}
 		}
+		if many {
+			life = manyLife
+			a.TTLs = []uint32{uint32(life)}
+			a.PadTo = 0
+			t.Ans2, t.Ans2From = nil, 0
+			t.Acts = []plan.UpAction{{Kind: "reply", DelayUs: delay()}, {Kind: []string{"reply", "reply", "silent"}[r.intn(3)], DelayUs: r.i64(2_000_000, 5_500_000)}, {Kind: "reply", DelayUs: delay()}}
+		}
 		rp.Tokens[tok] = t
 		// operations on this key
 		t0 := r.i64(20_000, 2_000_000)
 		nops := r.rng(3, 30)
+		if many {
+			t0 = 20_000 + int64(k)*r.i64(500, 4000)
+			nops = 3
+		}
 		span := life * 1_000_000 * int64(r.rng(1, 3))
 		// a real burst: several hits while one refresh is in flight and when
 		// its answer is stored (the spread follows the refresh's duration)
 		burstAt, burstSpread, rd := int64(0), int64(0), int64(0)
-		if (focus == "C19" || focus == "C07" && arm != "ample") && r.p(0.5) {
+		if !many && (focus == "C19" || focus == "C07" && arm != "ample") && r.p(0.5) {
 			burstAt = t0 + life*1_000_000*int64(76+r.intn(20))/100
 			rd = t.Acts[len(t.Acts)-1].DelayUs
 			if len(t.Acts) > 1 {
@@ -1398,6 +1432,10 @@ func genCacheOps(r *rng, p *plan.Plan, focus, arm string) {
 			switch {
 			case i == 0:
 				at = t0
+			case many && i == 1:
+				at = 20_000 + life*1_000_000*80/100 + r.i64(0, 150_000)
+			case many:
+				at = 20_000 + life*1_000_000*80/100 + r.i64(200_000, 1_800_000)
 			case burstAt > 0 && i == 1:
 				at = burstAt // the hit that starts the refresh
 			case burstAt > 0 && r.p(0.6):
@@ -1582,6 +1620,12 @@ func genC11(r *rng, p *plan.Plan) {
 		files = append(files, lines)
 	}
 	rp.DomainSets = []plan.DomainSetSpec{{Tag: "set0", Files: files}}
+	for j := range files {
+		// a file whose last line is not terminated (it may also end in a comment)
+		if r.p(0.3) {
+			rp.DomainSets[0].NoFinalNewline = append(rp.DomainSets[0].NoFinalNewline, j)
+		}
+	}
 	// queries: token label + (entry | child | sibling | parent | near miss)
 	for i := range rp.Ops {
 		op := &rp.Ops[i]
